@@ -1,5 +1,5 @@
 (** C19 — Task mutators, their recorded operations and the task model agree. *)
-From TC Require Import Model.TaskMut Proofs.TaskMutP.
+From TC Require Import Model.Task Model.TaskMut Proofs.TaskMutP Proofs.TagsP.
 From Coq Require Import Strings.String.
 
 (** For any sequence of mutator calls (refused ones change nothing) on a task
@@ -70,6 +70,43 @@ Theorem C19_synthetic_tag_refused : forall nowstr s t x,
   run_mutator nowstr s (MAddTag t) = None /\ run_mutator nowstr s (MRemoveTag t) = None.
 Proof. exact synthetic_tag_refused. Qed.
 
+(** Tags, dependencies and annotations written through the mutators are read
+    back by the getters; adding or removing one tag leaves every other tag as
+    it was. *)
+Theorem C19_add_tag_has : forall nowstr s t s',
+  run_mutator nowstr s (MAddTag t) = Some s' -> TUser t ∈ user_tags (ts_map s').
+Proof. exact add_tag_has. Qed.
+
+Theorem C19_remove_tag_gone : forall nowstr s t s',
+  run_mutator nowstr s (MRemoveTag t) = Some s' -> TUser t ∉ user_tags (ts_map s').
+Proof. exact remove_tag_gone. Qed.
+
+Theorem C19_other_tags_untouched : forall nowstr s t s' tg (add : bool),
+  run_mutator nowstr s (if add then MAddTag t else MRemoveTag t) = Some s' ->
+  tg <> TUser t ->
+  (tg ∈ user_tags (ts_map s') <-> tg ∈ user_tags (ts_map s)).
+Proof. exact other_tags_untouched. Qed.
+
+Theorem C19_add_dependency_has : forall nowstr (parse_uuid : list N -> option N) s u d s',
+  run_mutator nowstr s (MAddDep u) = Some s' -> parse_uuid u = Some d ->
+  d ∈ dependencies parse_uuid (ts_map s').
+Proof. exact add_dependency_has. Qed.
+
+Theorem C19_remove_dependency_gone : forall nowstr s u s',
+  run_mutator nowstr s (MRemoveDep u) = Some s' ->
+  ts_map s' !! (s2l "dep_" ++ u) = None.
+Proof. exact remove_dependency_gone. Qed.
+
+Theorem C19_add_annotation_stored : forall nowstr s ts d s',
+  run_mutator nowstr s (MAddAnnotation ts d) = Some s' ->
+  ts_map s' !! (s2l "annotation_" ++ ts) = Some d.
+Proof. exact add_annotation_stored. Qed.
+
+Theorem C19_remove_annotation_gone : forall nowstr s ts s',
+  run_mutator nowstr s (MRemoveAnnotation ts) = Some s' ->
+  ts_map s' !! (s2l "annotation_" ++ ts) = None.
+Proof. exact remove_annotation_gone. Qed.
+
 Print Assumptions C19_held_equals_stored.
 Print Assumptions C19_mutator_keeps_agreement.
 Print Assumptions C19_modified_once_first.
@@ -83,3 +120,10 @@ Print Assumptions C19_end_cleared_on_reopen.
 Print Assumptions C19_status_written.
 Print Assumptions C19_reserved_uda_refused.
 Print Assumptions C19_synthetic_tag_refused.
+Print Assumptions C19_add_tag_has.
+Print Assumptions C19_remove_tag_gone.
+Print Assumptions C19_other_tags_untouched.
+Print Assumptions C19_add_dependency_has.
+Print Assumptions C19_remove_dependency_gone.
+Print Assumptions C19_add_annotation_stored.
+Print Assumptions C19_remove_annotation_gone.
